@@ -403,6 +403,55 @@ def check_overwrite(ctx):
     ctx.count("overwrite_histories", 3)
 
 
+def check_environment(ctx):
+    """unusual but legal environments: odd working directory with a relative output path, odd locale /
+    environment variables, paths with spaces and non-ASCII characters, faults before anything is written"""
+    o = {"protocol": 4, "seed": 23, "mutators": ["all"], "rate": 0.5, "unsafe": True, "ext": True, "buf": True}
+    want = ctx.lib.gen_many(map_options(o))
+    odd = os.path.join(ctx.tmp, "odd dir \u00e9\u4e2d 'q'")
+    os.makedirs(odd, exist_ok=True)
+    envs = [
+        {"LANG": "C", "LC_ALL": "C"},
+        {"LANG": "tr_TR.UTF-8", "LC_ALL": "tr_TR.UTF-8", "LC_NUMERIC": "de_DE.UTF-8"},
+        {"TZ": "Pacific/Kiritimati", "NO_COLOR": "1", "RUST_BACKTRACE": "full", "RUST_LOG": "trace", "COLUMNS": "1"},
+        {"HOME": "/nonexistent", "TMPDIR": "/nonexistent", "USER": "", "RAYON_NUM_THREADS": "1"},
+    ]
+    for k, extra in enumerate(envs):
+        # relative output path, cwd = odd directory
+        e = dict(os.environ)
+        e.update(extra)
+        name = "rel out %d.pkl" % k
+        r = subprocess.run([ctx.paths["cli"]] + cli_argv(o, [name]), cwd=odd, env=e, stdout=subprocess.PIPE, stderr=subprocess.PIPE, text=True)
+        p = os.path.join(odd, name)
+        got = open(p, "rb").read() if os.path.isfile(p) else None
+        compare(ctx, "C13", "cli", "environment", got, want, {"frontend": "cli", "options": o, "env": extra, "cwd": "directory with spaces / non-ASCII name",
+                                                              "status": "exit %d %s" % (r.returncode, r.stderr.strip()[-150:])})
+        d = "rel dir %d" % k
+        r = subprocess.run([ctx.paths["cli"]] + cli_argv(o, ["--dir", d, "--samples", "5"]), cwd=odd, env=e, stdout=subprocess.PIPE, stderr=subprocess.PIPE, text=True)
+        for j in range(5):
+            p = os.path.join(odd, d, "%d.pkl" % j)
+            got = open(p, "rb").read() if os.path.isfile(p) else None
+            if not compare(ctx, "C13", "batch", "environment", got, want, {"frontend": "batch", "options": o, "env": extra, "file": "%d.pkl" % j,
+                                                                             "status": "exit %d" % r.returncode}):
+                break
+    ctx.count("environment_variants", len(envs))
+    # faults before anything can be written: the exit status must say so and nothing may be left behind
+    missing = os.path.join(ctx.tmp, "no", "such", "parent")
+    r = run_cli(ctx, cli_argv(o, [os.path.join(missing, "x.pkl")]))
+    ctx.evaluations += 1
+    if r.returncode == 0:
+        ctx.violate("C13", "C13:cli:fault_exit0", "single-file mode exited 0 although the output file's directory does not exist", {"frontend": "cli", "options": o})
+    r = run_cli(ctx, cli_argv(o, ["--dir", os.path.join(missing, "d"), "--samples", "3"]))
+    ctx.evaluations += 1
+    if r.returncode == 0:
+        ctx.violate("C13", "C13:batch:fault_exit0", "batch mode exited 0 although the output directory could not be created", {"frontend": "batch", "options": o})
+    # the output path is an existing directory
+    r = run_cli(ctx, cli_argv(o, [odd]))
+    ctx.evaluations += 1
+    if r.returncode == 0:
+        ctx.violate("C13", "C13:cli:fault_exit0", "single-file mode exited 0 although FILE is an existing directory", {"frontend": "cli", "options": o})
+
+
 # ------------------------------------------------------------------ action wrapper
 
 def check_action(ctx, opts, tagp="a"):
@@ -653,6 +702,7 @@ def check_c13(tier, seed, paths):
         check_batch(ctx, batch_opts, [1, 7] if not thorough else [0, 1, 7, 64], [1, 16] if not thorough else [1, 2, 3, 16])
         check_batch_faults(ctx)
         check_overwrite(ctx)
+        check_environment(ctx)
         action_opts = [o for o in seeded if not (o.get("mutators") and len(o["mutators"]) > 3)]
         check_action(ctx, action_opts[::3] if not thorough else action_opts)
         # wrapper + mutators + output_file with no later flag (the positional directly follows the mutator list)
